@@ -262,14 +262,16 @@ class CollisionArray:
                             basisSizeFile = size
                             basisTypeFile = btype
                         else:
-                            assert (
-                                size == basisSizeFile
-                            ), """CollisionArray error: All the collision files must
-                            have the same basis size."""
-                            assert (
-                                btype == basisTypeFile
-                            ), """CollisionArray error: All the collision files must
-                            have the same basis type."""
+                            if size != basisSizeFile:
+                                raise CollisionLoadError(
+                                    f"CollisionArray error: {filename} has basis size "
+                                    f"{size}, other collision files have {basisSizeFile}."
+                                )
+                            if btype != basisTypeFile:
+                                raise CollisionLoadError(
+                                    f"CollisionArray error: {filename} has basis type "
+                                    f"{btype}, other collision files have {basisTypeFile}."
+                                )
 
                         collisionFileArray[i, :, :, j, :, :] = collisionDataset
                         
@@ -277,6 +279,11 @@ class CollisionArray:
                     raise CollisionLoadError(
                         f"CollisionArray error: {filename} not found."
                     )
+                except KeyError as err:
+                    # missing "metadata" group, attribute or "<p1>, <p2>" dataset
+                    raise CollisionLoadError(
+                        f"CollisionArray error: {filename} is incomplete: {err}"
+                    ) from err
 
         collisionFileArray = collisionFileArray.reshape(
             (
